@@ -48,9 +48,9 @@ class C06(Engine):
         self.pristine = None
         # stress pool: every fatal / stress / internal-ish member first, then a spread of the others
         rng = core.derive_rng("c06.stress", self.seed, 0)
-        want = 60 if self.tier == "quick" else 90
+        want = 70 if self.tier == "quick" else 110
         sp = []
-        for g in ("special_fatal", "special_stress"):
+        for g in ("special_fatal", "special_stress", "special_zoo"):
             sp += P.groups.get(g, [])
         seen_sites = set()
         for fid in sorted(P.files):
